@@ -1,3 +1,4 @@
+\* sensitivity (expected: DeliverNonBlocking violated): the dispatcher keeps the waiter entry
 SPECIFICATION Spec
 CONSTANTS
   Callers = {P1, P2}
